@@ -28,6 +28,7 @@ import (
 	"testing"
 
 	"github.com/named-data/ndnd/fw/core"
+	"github.com/named-data/ndnd/fw/face"
 	"github.com/named-data/ndnd/fw/table"
 	enc "github.com/named-data/ndnd/std/encoding"
 )
@@ -108,6 +109,50 @@ func stratStr(n enc.Name) string {
 		return strings.TrimSuffix(strings.TrimPrefix(s, "/localhost/nfd/strategy/s"), "/v=1")
 	}
 	return "?" + s
+}
+
+// ---------------------------------------------------------------- faces
+// RIB histories use the REAL face table (fw/face/table.go is an anchor of C06): a logical face number of the trace is a
+// stub face registered with face.FaceTable.Add; "cleanup f" is face.FaceTable.Remove(id) (face table, dispatch table,
+// Rib.CleanUpFace) -- also a second time for a face that is already gone but got routes registered in between.
+type faceMapT struct {
+	real    map[uint64]uint64 // logical -> FaceID
+	logical map[uint64]uint64 // FaceID -> logical
+}
+
+var curFaces *faceMapT
+
+func newFaceMap() *faceMapT {
+	return &faceMapT{real: map[uint64]uint64{}, logical: map[uint64]uint64{}}
+}
+
+func (m *faceMapT) id(logical uint64) uint64 {
+	if id, ok := m.real[logical]; ok {
+		return id
+	}
+	l := face.MakeNullLinkService(face.MakeNullTransport())
+	face.FaceTable.Add(l)
+	m.real[logical] = l.FaceID()
+	m.logical[l.FaceID()] = logical
+	return l.FaceID()
+}
+
+func (m *faceMapT) release() {
+	for _, id := range m.real {
+		if face.FaceTable.Get(id) != nil {
+			face.FaceTable.Remove(id)
+		}
+	}
+}
+
+// faceNo prints a FaceID as the logical number of the trace
+func faceNo(id uint64) uint64 {
+	if curFaces != nil {
+		if l, ok := curFaces.logical[id]; ok {
+			return l
+		}
+	}
+	return id
 }
 
 // ---------------------------------------------------------------- cases
@@ -200,7 +245,7 @@ func nhStr(nhs []*table.FibNextHopEntry) string {
 	}
 	parts := make([]string, len(nhs))
 	for i, nh := range nhs {
-		parts[i] = strconv.FormatUint(nh.Nexthop, 10) + ":" + strconv.FormatUint(nh.Cost, 10)
+		parts[i] = strconv.FormatUint(faceNo(nh.Nexthop), 10) + ":" + strconv.FormatUint(nh.Cost, 10)
 	}
 	return strings.Join(parts, ",")
 }
@@ -211,7 +256,7 @@ func vnhStr(nhs []table.VerifNextHop) string {
 	}
 	parts := make([]string, len(nhs))
 	for i, nh := range nhs {
-		parts[i] = strconv.FormatUint(nh.Face, 10) + ":" + strconv.FormatUint(nh.Cost, 10)
+		parts[i] = strconv.FormatUint(faceNo(nh.Face), 10) + ":" + strconv.FormatUint(nh.Cost, 10)
 	}
 	return strings.Join(parts, ",")
 }
@@ -342,7 +387,7 @@ func (x *obsCtx) ribObs() {
 	for _, e := range table.Rib.GetAllEntries() {
 		var rs []string
 		for _, r := range e.GetRoutes() {
-			rs = append(rs, routeStr(r.FaceID, r.Origin, r.Cost, r.Flags))
+			rs = append(rs, routeStr(faceNo(r.FaceID), r.Origin, r.Cost, r.Flags))
 		}
 		sort.Strings(rs)
 		items = append(items, unintern(e.Name)+"="+strings.Join(rs, ","))
@@ -355,7 +400,7 @@ func (x *obsCtx) ribObs() {
 		}
 		var rs []string
 		for _, r := range n.Routes {
-			rs = append(rs, routeStr(r.Face, r.Origin, r.Cost, r.Flags))
+			rs = append(rs, routeStr(faceNo(r.Face), r.Origin, r.Cost, r.Flags))
 		}
 		named := "0"
 		if n.HasName {
@@ -396,11 +441,11 @@ func applyFib(f table.FibStrategy, o op) {
 func applyRib(o op) {
 	switch o.kind {
 	case "reg":
-		table.Rib.AddEncRoute(o.name.enc(), &table.Route{FaceID: o.a[0], Origin: o.a[1], Cost: o.a[2], Flags: o.a[3]})
+		table.Rib.AddEncRoute(o.name.enc(), &table.Route{FaceID: curFaces.id(o.a[0]), Origin: o.a[1], Cost: o.a[2], Flags: o.a[3]})
 	case "unreg":
-		table.Rib.RemoveRouteEnc(o.name.enc(), o.a[0], o.a[1])
+		table.Rib.RemoveRouteEnc(o.name.enc(), curFaces.id(o.a[0]), o.a[1])
 	case "cleanup":
-		table.Rib.CleanUpFace(o.a[0])
+		face.FaceTable.Remove(curFaces.id(o.a[0])) // the real teardown path; possibly for a face that is already gone
 	}
 }
 
@@ -457,6 +502,8 @@ func runCase(w *bufio.Writer, c *tcase) {
 			x.fib = newFib("hashtable", c.m)
 		}
 		table.VerifResetRib()
+		curFaces = newFaceMap()
+		defer func() { curFaces.release(); curFaces = nil }()
 		ctxs = append(ctxs, x)
 	}
 	for _, o := range c.ops {
